@@ -55,11 +55,11 @@ def gen(rng, fam):
     t0 = round(rng.uniform(0.02, 0.1), 5)
     starts = [{"t": t0, "node": rng.randrange(n)}]
     if klass in ("ml-multi-fifo", "ml-multi"):
-        for _ in range(rng.choice([1, 1, 2])):
+        for _ in range(rng.choice([1, 1, 2, 3])):
             gap = rng.choice([rng.uniform(0, 3 * scale), rng.uniform(0, 0.5), rng.uniform(0, 1.5)])
             starts.append({"t": round(t0 + gap, 5), "node": rng.randrange(n)})
     starts.sort(key=lambda s: (s["t"], s["node"]))
-    k = rng.randint(2, 8)
+    k = rng.randint(2, 12)
     submits = []
     if klass == "ml-live":
         base = t0 + 4 * dmax + 0.001
@@ -171,9 +171,13 @@ def run(sc):
     pr = dict.fromkeys(["ml_leader_change", "ml_two_leaders_at_once", "ml_accept_out_of_order", "ml_truncate",
                         "ml_commit_via_heartbeat", "ml_pending_assigned_on_takeover", "ml_future_resolved",
                         "ml_leader_deposed_by_own_heartbeat", "ml_queued_at_non_leader", "ml_nack",
-                        "ml_leader_uses_foreign_ballot"], 0)
+                        "ml_leader_uses_foreign_ballot", "ml_leader_kept_leading_after_own_tick",
+                        "ml_command_after_first_tick_applied_everywhere"], 0)
+    ticked = set()               # leaders that survived at least one own heartbeat tick
+    late_cmds = []               # commands submitted to such a leader
     leaders_ever = []
     ack_msgs = {}                # (leader, slot) -> Accepted responses delivered to it
+    promises_ml = {}             # (node, ballot number) -> promises from peers for its *own* ballot
     last_ballot = {}             # node -> (number, node_id) last seen
     slots_committed = [0]
 
@@ -244,6 +248,8 @@ def run(sc):
             futures.append([nd, fut, s["cmd"], False])
             out = None
             if lead:
+                if nd.name in ticked:
+                    late_cmds.append(s["cmd"])
                 # the repo's documented way to push a freshly assigned slot (examples/distributed/flexible_paxos_quorums.py)
                 out = nd._replicate_slot(nd.log.last_index)
             else:
@@ -265,6 +271,13 @@ def run(sc):
                    f"{sender} sends Accept(ballot={b}, slot={slot}, command={cmd!r}); submitted so far: {sorted(submitted)}")
         if sender != b[1]:
             pr["ml_leader_uses_foreign_ballot"] = 1
+            J.fine("accept-needs-own-completed-phase1", "foreign-ballot",
+                   f"{sender} sends Accept(ballot={b}, slot={slot}, command={cmd!r}) under a ballot owned by {b[1]} "
+                   f"(it still has is_leader=True although its current ballot is another node's)")
+        elif promises_ml.get((sender, b[0]), 0) + 1 < sc["q1"]:
+            J.fine("accept-needs-own-completed-phase1", "phase1-incomplete",
+                   f"{sender} sends Accept(ballot={b}, slot={slot}, command={cmd!r}) after only "
+                   f"{promises_ml.get((sender, b[0]), 0)} promises from peers for that ballot (phase-1 quorum {sc['q1']} incl. itself)")
         k = (b[0], b[1], slot)
         if k in accept_msg:
             old_cmd, old_sender = accept_msg[k]
@@ -293,6 +306,8 @@ def run(sc):
             J.fine("ballot-monotone", f"ballot-decreased-on-{et.replace(P, '')}",
                    f"{x.name}'s ballot went from {last_ballot[x.name]} to {cbn} during {et}")
         last_ballot[x.name] = cbn
+        if et == P + "Promise" and md.get("ballot_node") == x.name:
+            promises_ml[(x.name, md.get("ballot_number"))] = promises_ml.get((x.name, md.get("ballot_number")), 0) + 1
         if et == P + "Accepted":
             ack_msgs[(x.name, md.get("slot"))] = ack_msgs.get((x.name, md.get("slot")), 0) + 1
         # --- acceptor answered an Accept
@@ -333,6 +348,9 @@ def run(sc):
             elif et == P + "Heartbeat" and md.get("self_heartbeat"):
                 pr["ml_leader_deposed_by_own_heartbeat"] = 1
             was_leader[i] = lead
+        if lead and et == P + "Heartbeat" and md.get("self_heartbeat"):
+            pr["ml_leader_kept_leading_after_own_tick"] = 1
+            ticked.add(x.name)
         if lead and sum(1 for y in nodes if y.is_leader) > 1:
             pr["ml_two_leaders_at_once"] = 1
         # --- decisions: entries up to commit_index
@@ -363,10 +381,10 @@ def run(sc):
                 if ch is None or ch[0] != cmd:
                     if et == P + "Accepted":
                         role = "leader"
-                        if ch is not None:
-                            why = "entry-differs-from-chosen"
-                        elif s < md.get("slot", s):
+                        if s < md.get("slot", s):
                             why = "lower-slot-committed-along-with-higher"
+                        elif ch is not None:
+                            why = "entry-differs-from-chosen"
                         elif ack_msgs.get((x.name, s), 0) + 1 < q2:
                             why = "fewer-acks-than-quorum"
                         else:
@@ -439,6 +457,7 @@ def run(sc):
             msg = (f"fault-free, FIFO links, delays <= {dmax:.4f}s, heartbeat {sc['hb']}s, horizon {sc['horizon']}s: {bad[1]}; "
                    f"commit indexes {[x.log.commit_index for x in nodes]}, leaders now {[x.name for x in nodes if x.is_leader]}, "
                    f"commands skipped because no node was leader: {skipped['no_leader']}")
+    pr["ml_command_after_first_tick_applied_everywhere"] = int(any(all(c in sm.applied for sm in sms) for c in late_cmds))
     counters = {f"probe.{k}": v for k, v in pr.items()}
     counters["probe.flex_q2_below_majority"] = int(fam == "flex" and q2 < n // 2 + 1)
     counters.update(fd.counters())
